@@ -9,6 +9,7 @@ HARNESSES["wrongtype"] = cc.WRONGTYPE_HARNESS
 HARNESSES["constant"] = cp.CONSTANT_HARNESS
 HARNESSES["badselector"] = cp.BADSELECTOR_HARNESS
 HARNESSES["unknownnested"] = cp.UNKNOWNNESTED_HARNESS
+HARNESSES["foreigndtc"] = cp.FOREIGNDTC_HARNESS
 STUBS = cc.STUBS
 
 
@@ -21,7 +22,10 @@ def configs(tier, seed):
           "prop": "C04", "dtc": dtc, "shape": cp.shapes(cp.COMPOSITES[n])[-1],
           "build": {"what": "request", "name": n}}
          for n, path in cp.UNKNOWN_NESTED.items() if path
-         for dtc in ((7, 1) if n == "env-data-then-structure" else (0,))]
+         for dtc in ((7, 1) if n == "env-data-then-structure" else (0,))] + \
+        [{"id": f"foreigndtc/{n}", "harness": "foreigndtc", "what": "request", "name": n,
+          "prop": "C04", "shape": cp.shapes(cp.COMPOSITES[n])[-1],
+          "build": {"what": "request", "name": n}} for n in ("dtc", "dtc-lowhigh")]
 
 
 BOUNDS = {"atoms": "bit length in {1,2,7,8,9,12,15,16,17,24,31,32,33,63,64} x bit position 0..7 x "
